@@ -785,6 +785,28 @@ func shrinkCase(c fw.Case) []fw.Case {
 	return out
 }
 
+// outcomeTags: what the real handler answered (per Set), for the printed distribution.
+func outcomeTags(c fw.Case, out []string) []string {
+	var tags []string
+	for i, ln := range c.Script {
+		if !strings.HasPrefix(ln, "nb.set") || i >= len(out) {
+			continue
+		}
+		f := strings.Fields(out[i])
+		switch {
+		case len(f) >= 1 && f[0] == "ok":
+			tags = append(tags, "real:accepted")
+		case len(f) >= 3 && f[0] == "err":
+			tags = append(tags, "real:refused:"+f[1]+":"+f[2])
+		case len(f) >= 2 && f[0] == "panic":
+			tags = append(tags, "real:panic:"+f[1])
+		default:
+			tags = append(tags, "real:other")
+		}
+	}
+	return tags
+}
+
 // Prop is the C13 correspondence check.
 var Prop = &fw.Prop{
 	ID: "C13",
@@ -794,10 +816,11 @@ var Prop = &fw.Prop{
 		"plus differential lines for RemovePathIndices, AnonymizePathIndices, ExtractIndexNames, IsPathValid, CheckPathIndexIsValid, FindPathFromModel; plus the enumeration of every prefix/path split of every model path. Non-trivial = a mixed valid/invalid request or a prefix is present.",
 	Quick: 1200, Thorough: 30000, Workers: 12,
 	Gen: gen, Enumerate: enumerate,
-	NewReal:  func() fw.Real { return nbreal.New() },
-	Monitor:  monitor,
-	Shrink:   shrinkCase,
-	RealOnly: func(line string) bool { return line == "obs" },
+	NewReal:     func() fw.Real { return nbreal.New() },
+	Monitor:     monitor,
+	Shrink:      shrinkCase,
+	RealOnly:    func(line string) bool { return line == "obs" },
+	OutcomeTags: outcomeTags,
 	Sigs: map[string]func(fw.Case, []string, string) bool{
 		"jsonPrefixOnly": sigJSONPrefixOnly,
 		"deleteLookup":   sigDeleteLookup,
